@@ -78,8 +78,11 @@ def run(ctx) -> Result:
     n = 120 if not ctx.thorough else 2500
     for i in range(n):
         cfg = pipecheck.CONFIGS[i % len(pipecheck.CONFIGS)]
-        hist = pipe.gen_history(rng, n_ops=rng.randint(3, 12), paced=True, burst_prob=rng.choice([0.0, 0.5, 0.9]),
-                                rename_after_arrival=0.3)
+        if i % 3 == 2:
+            hist = pipe.gen_history_renames(rng, n_renames=rng.randint(2, 5))
+        else:
+            hist = pipe.gen_history(rng, n_ops=rng.randint(3, 12), paced=True, burst_prob=rng.choice([0.0, 0.5, 0.9]),
+                                    rename_after_arrival=0.3)
         one(ctx, res, hist, cfg, batch)
     pipecheck.check_model(res, "C02", batch)
     return res
